@@ -329,6 +329,7 @@ class BodyAn:
         may_in = {0: args}
         # transfer
         def moved_locals_operand(op):
+            # a move out of a (non-deref) projection takes the payload with it: the base no longer owns it
             if op.kind == 'move':
                 p = op.place
                 if '*' in p.proj:
@@ -373,6 +374,14 @@ class BodyAn:
                 mu &= ~kill; ma &= ~kill
                 for k, tgt in self.edges(bb):
                     outs[(k, tgt)] = (mu, ma)
+            elif t.kind == 'switch' and 'on' in t.j and not t.j['on']['pr'] and t.j.get('adt') == 'std::option::Option':
+                # on the None arm of a match on a whole local the local owns nothing
+                l = t.j['on']['l']
+                for lab, tgt in t.switch_arms():
+                    if lab == 'None':
+                        outs[('normal', tgt)] = (mu & ~(1 << l), ma & ~(1 << l))
+                    else:
+                        outs.setdefault(('normal', tgt), (mu, ma))
             else:
                 for k, tgt in self.edges(bb):
                     outs[(k, tgt)] = (mu, ma)
@@ -549,3 +558,148 @@ class Prog:
                 if c == path:
                     out.append((caller, bb, k))
         return out
+
+
+# ---------------------------------------------------------------------------
+# data-flow origins (flow-insensitive def-use closure within one body)
+
+FLOW_THROUGH = (
+    'std::ops::Try::branch', 'std::convert::Into::into', 'std::convert::From::from',
+    'std::ops::FromResidual::from_residual', 'std::result::Result::map_err', 'std::result::Result::map',
+    'std::option::Option::map', 'std::option::Option::ok_or', 'std::result::Result::ok', 'std::option::Option::take',
+    'std::option::Option::unwrap', 'std::result::Result::unwrap', 'std::option::Option::as_ref', 'std::option::Option::as_mut',
+    'std::clone::Clone::clone', 'std::option::Option::filter', 'std::option::Option::as_deref', 'std::string::String::as_str',
+    'std::ops::Deref::deref', 'std::ops::DerefMut::deref_mut', 'std::convert::AsRef::as_ref', 'std::future::IntoFuture::into_future',
+    'std::pin::Pin::new_unchecked', 'std::borrow::ToOwned::to_owned', 'std::string::ToString::to_string',
+    'std::option::Option::cloned', 'std::option::Option::copied', 'std::option::Option::unwrap_or_default',
+    'std::option::Option::unwrap_or', 'std::result::Result::and_then', 'std::option::Option::and_then',
+)
+
+
+def _flow_through(term, extra=()):
+    for n in term.callee_names():
+        if n in FLOW_THROUGH or n in extra:
+            return True
+        if n.startswith('<') and '>::' in n:
+            # <T as Trait>::method  -> Trait::method
+            inner, meth = n.rsplit('>::', 1)
+            if ' as ' in inner:
+                tr = inner.split(' as ', 1)[1]
+                if (tr + '::' + meth) in FLOW_THROUGH or (tr + '::' + meth) in extra:
+                    return True
+    return False
+
+
+def sources(an, op, extra_through=(), limit=400):
+    """terminal origins of the value in `op`, following every definition of every local on the way.
+    returns a set of tuples: ('call', name, bb) | ('const', value) | ('arg', name) | ('field', 'owner.field') |
+    ('agg', adt::variant, bb) | ('bin', op, bb) | ('upvar', name) | ('unknown', repr)"""
+    out = set()
+    seen = set()
+    work = [op]
+    up = an.b.upvar_names() if an.b.kind == 'Closure' else {}
+    while work and len(seen) < limit:
+        o = work.pop()
+        if o.kind == 'const':
+            out.add(('const', o.const.get('fn') or o.const['v']))
+            continue
+        if o.kind == 'other':
+            out.add(('unknown', repr(o))); continue
+        p = o.place
+        # reading a field of something: record the outermost owner.field that is an ADT field
+        if p.local == 1 and an.b.kind == 'Closure' and p.proj:
+            nm = None
+            for k in range(len(p.proj), 0, -1):
+                if tuple(p.proj[:k]) in up:
+                    nm = up[tuple(p.proj[:k])]; rest = p.proj[k:]; break
+            if nm is not None:
+                fl = [x for x in rest if x.startswith('.')]
+                out.add(('upvar', nm + ''.join(fl)))
+                continue
+        flds = [(o_, f) for o_, f in p.fields() if o_]
+        key = (p.local,)
+        if flds:
+            out.add(('field', '%s.%s' % (flds[-1][0], flds[-1][1])))
+        if key in seen:
+            continue
+        seen.add(key)
+        l = p.local
+        if 1 <= l <= an.b.arg_count and not (an.b.kind == 'Closure' and l == 1):
+            out.add(('arg', an.local_name(l) or 'arg%d' % l))
+        for d in an.defs(l):
+            if d[0] == 'stmt':
+                rv = d[3].rv
+                if rv.kind in ('use', 'cast', 'repeat'):
+                    work.append(rv.ops[0])
+                elif rv.kind in ('ref', 'copyderef', 'rawptr', 'discr'):
+                    work.append(Operand({'c': {'l': rv.place.local, 'pr': list(rv.place.proj), 'own': list(rv.place.own)}}))
+                elif rv.kind == 'agg':
+                    if rv.j['ak'] == 'adt':
+                        out.add(('agg', rv.j['adt'] + '::' + rv.j['variant'], d[1]))
+                    elif rv.j['ak'] in ('closure', 'coroutine'):
+                        out.add(('closure', rv.j['def'], d[1]))
+                    for x in rv.ops:
+                        work.append(x)
+                elif rv.kind in ('bin', 'un'):
+                    out.add(('bin', rv.binop, d[1]))
+                    for x in rv.ops:
+                        work.append(x)
+            else:
+                t = d[3]
+                if _flow_through(t, extra_through):
+                    for a in t.args:
+                        work.append(a)
+                else:
+                    nm = strip_generics(t.rcallee or '?')
+                    out.add(('call', nm, d[1]))
+    return out
+
+
+def success_edges(an):
+    """set of (switch_bb, target_bb) edges that are taken only when a fallible value was a success:
+    Result::Ok arm, ControlFlow::Continue arm (the `?` operator), false-arm of is_err()/is_none(), true-arm of is_ok()/is_some()"""
+    ok = set(); fail = set()
+    for blk in an.b.blocks:
+        t = blk.term
+        if t.kind != 'switch':
+            continue
+        adt = t.j.get('adt')
+        arms = t.switch_arms()
+        if adt in ('std::result::Result', 'std::ops::ControlFlow'):
+            good = 'Ok' if adt == 'std::result::Result' else 'Continue'
+            for lab, tgt in arms:
+                (ok if lab == good else fail).add((blk.idx, tgt))
+        elif t.j.get('dty') == 'bool' and t.discr.kind != 'const' and not t.discr.place.proj:
+            d = an.single_def(t.discr.place.local)
+            # look through a copy
+            hops = 0
+            while d and d[0] == 'stmt' and d[3].rv.kind == 'use' and d[3].rv.ops[0].kind != 'const' and not d[3].rv.ops[0].place.proj and hops < 4:
+                d = an.single_def(d[3].rv.ops[0].place.local); hops += 1
+            if d and d[0] == 'call':
+                names = d[3].callee_names()
+                if names & {'std::result::Result::is_err'}:
+                    for lab, tgt in arms:
+                        (ok if lab == 'false' else fail).add((blk.idx, tgt))
+                elif names & {'std::result::Result::is_ok'}:
+                    for lab, tgt in arms:
+                        (ok if lab == 'true' else fail).add((blk.idx, tgt))
+    return ok, fail
+
+
+def reach_without_edges(an, src, banned_edges, kinds=('normal',), include_src=False):
+    seen = set()
+    work = []
+    def push(frm):
+        for t in an.succs(frm, kinds):
+            if (frm, t) in banned_edges:
+                continue
+            if t not in seen:
+                seen.add(t); work.append(t)
+    if include_src:
+        seen.add(src); work.append(src)
+    else:
+        push(src)
+    while work:
+        x = work.pop()
+        push(x)
+    return seen
